@@ -444,8 +444,8 @@ h_shift_ref!(c05_t_refshl_bvd2_l126_u32, 6, bvd2(126), u32, shl_model, lat, a, k
 h_shift_ref!(c05_t_refshr_bvd2_l126_usize, 6, bvd2(126), usize, shr_model, lat, a, k, &a >> k);
 h_shift_ref!(c05_t_refshl_bvd2_l128_u64, 6, bvd2(128), u64, shl_model, lat, a, k, &a << k);
 h_shift_ref!(c05_t_refshr_bvd2_l128_u8, 6, bvd2(128), u8, shr_model, lat, a, k, &a >> k);
-h_shift_ref!(c05_t_refshl_bvd1_u8, 4, bvd1(anylen(64)), u8, shl_model, single, a, k, &a << k);
-h_shift_ref!(c05_t_refshr_bvd1_u8, 4, bvd1(anylen(64)), u8, shr_model, single, a, k, &a >> k);
+h_shift_ref!(c05_t_refshl_bvd1_u8, 3, bvd1(anylen(64)), u8, shl_model, single, a, k, &a << k);
+h_shift_ref!(c05_t_refshr_bvd1_u8, 3, bvd1(anylen(64)), u8, shr_model, single, a, k, &a >> k);
 
 // ---- Bv, inline and heap mode -----------------------------------------------------------------
 h_shift_own!(c05_q_shl_bvfix_u128, 6, bvfix(anylen(128)), u128, shl_model, multi, a, k, { a <<= k; a });
